@@ -694,6 +694,9 @@ enum SessionRequest {
 struct SessionState {
     request_tx: Sender<SessionRequest>,
     interrupted: Arc<AtomicBool>,
+    /// Set when the session is closed, so the worker does not start
+    /// (or carry on with) requests that were sent before the close.
+    closed: Arc<AtomicBool>,
 }
 
 /// State held for one client connection. Each connection may host
@@ -743,6 +746,8 @@ impl Connection {
 
         let response_tx = self.response_tx.clone();
         let worker_interrupted = Arc::clone(&interrupted);
+        let closed = Arc::new(AtomicBool::new(false));
+        let worker_closed = Arc::clone(&closed);
         let temp_built_in_files = Arc::clone(&self.temp_built_in_files);
         let thread_name = format!("nrepl-session-{id}");
 
@@ -753,6 +758,7 @@ impl Connection {
                     request_rx,
                     response_tx,
                     worker_interrupted,
+                    worker_closed,
                     temp_built_in_files,
                 )
             })
@@ -763,6 +769,7 @@ impl Connection {
             SessionState {
                 request_tx,
                 interrupted,
+                closed,
             },
         );
         id
@@ -772,6 +779,7 @@ impl Connection {
         // Wake any in-progress eval so the worker shuts down
         // promptly once we drop the request channel.
         if let Some(s) = self.sessions.get(id) {
+            s.closed.store(true, Ordering::SeqCst);
             s.interrupted.store(true, Ordering::SeqCst);
         }
         self.sessions.remove(id).is_some()
@@ -845,6 +853,7 @@ fn session_worker(
     request_rx: Receiver<SessionRequest>,
     response_tx: Sender<Value>,
     interrupted: Arc<AtomicBool>,
+    closed: Arc<AtomicBool>,
     temp_built_in_files: Arc<Option<TempBuiltInFiles>>,
 ) {
     let id_gen = IdGenerator::default();
@@ -855,8 +864,13 @@ fn session_worker(
         #[cfg(wilfred_garden_verif)]
         crate::verif_hook::delay_point("dequeue");
 
-        // Clear any stray interrupt set while the session was idle.
+        // Clear any stray interrupt set while the session was idle,
+        // unless the session has been closed: requests that were
+        // still queued at that point are interrupted straight away.
         interrupted.store(false, Ordering::SeqCst);
+        if closed.load(Ordering::SeqCst) {
+            interrupted.store(true, Ordering::SeqCst);
+        }
 
         #[cfg(wilfred_garden_verif)]
         crate::verif_hook::delay_point("after_reset");
